@@ -457,6 +457,16 @@ impl<T: Flt> Query<T> {
             kind,
         }
     }
+    /// `reduced` (length 1 along some axes) broadcast to `full`: a zero-stride view
+    pub fn broadcast(reduced: &ArrayD<T>, full: &[usize], kind: QKind) -> Self {
+        Query {
+            mat: Mat::broadcast(reduced, full, &Layout::c(full.len()), |k| T::sentinel(k ^ 0x5151)),
+            kind,
+        }
+    }
+    pub fn is_broadcast(&self) -> bool {
+        self.mat.stored.is_some()
+    }
     pub fn shape(&self) -> &[usize] {
         &self.mat.shape
     }
@@ -468,7 +478,7 @@ impl<T: Flt> Query<T> {
             "{}{:?}/{}",
             self.kind.name(),
             self.mat.shape,
-            self.mat.lay.class()
+            if self.mat.stored.is_some() { "broadcast".to_string() } else { self.mat.lay.class() }
         )
     }
 }
